@@ -106,7 +106,7 @@ class World:
         load.patch("data_types", np=npx)
         load.patch("downscaling", np=npx)
         load.patch("sharded_base", np=npx, zlib=env.zlib, int=sym_int)
-        load.patch("file_accessor", pathlib=env.pathlib, os=env.os, gzip=env.gzip)
+        load.patch("file_accessor", pathlib=env.pathlib, os=env.os, gzip=env.gzip, open=env.open)
         load.preseed("sharded_file_accessor", bytearray=SByteArray, bytes=sym_bytes, open=env.open,
                      pathlib=env.pathlib, TemporaryDirectory=env.TemporaryDirectory, uuid4=env.uuid4,
                      struct=StructProxy(), np=npx, print=lambda *a, **k: None, int=sym_int)
